@@ -33,8 +33,12 @@ case "$cmd" in
   replay)
     bin="$WORK/vcheck.replay.$$"
     build "$bin" || exit 2
+    if grep -q '"property": "C03"' "$2" 2>/dev/null; then
+      build "$bin.debug" -tags debug || exit 2
+      export VERIF_DEBUG_BIN="$bin.debug"
+    fi
     "$bin" -replay "$2"; rc=$?
-    rm -f "$bin"; exit $rc ;;
+    rm -f "$bin" "$bin.debug"; exit $rc ;;
   "") echo "usage: check.sh <id> [quick|thorough] | replay <file> | setup" >&2; exit 2 ;;
 esac
 
@@ -44,6 +48,12 @@ D="$WORK/$id.$$"
 mkdir -p "$D"
 trap 'rm -rf "$D"' EXIT
 build "$D/vcheck" || exit 2
+case "$id" in
+  C03)
+    # second configuration: the same harness with the openacid/must contracts compiled in
+    build "$D/vcheck.debug" -tags debug || exit 2
+    export VERIF_DEBUG_BIN="$D/vcheck.debug" ;;
+esac
 
 # address-space cap: a runaway allocation must kill the check process, not the sandbox
 ulimit -v $((48*1024*1024)) 2>/dev/null
